@@ -138,6 +138,33 @@ def gen_detail_case(rnd):
     return f, q
 
 
+def gen_keydim_case(rnd):
+    """targeted family: a dimension NAMED like a key column of its model (the child's foreign key, the parent's primary key) whose SQL is not that column
+    (fk_a + 1, id * 2, ...), requested in a query that joins through that key: the hop must still compare the declared key columns, and the
+    dimension must still show its own expression"""
+    for _ in range(40):
+        f = jg.gen_forest(rnd, nmodels=rnd.randint(2, 3), allow_m2m=False)
+        links = [(c, p) for (c, p, ty, comp) in f["links"] if not comp and not f["models"][c]["composite"] and not f["models"][c].get("pk")
+                 and len(f["models"][c]["rows"]) >= 2 and len(f["models"][p]["rows"]) >= 2]
+        if not links:
+            continue
+        c, p = rnd.choice(links)
+        child, parent = f["models"][c], f["models"][p]
+        which = rnd.choice(["fk", "pk", "fk"])
+        if which == "fk":
+            dims = [(child["name"], (rnd.choice(["add", "mul"]), jg.jcol("fk_a"), sg.lit(rnd.choice([1, 2])))), (parent["name"], jg.jcol("s0"))]
+            names = {0: "fk_a"}
+        else:
+            dims = [(parent["name"], ("add", jg.jcol("id"), sg.lit(1))), (child["name"], jg.jcol("s0"))]
+            names = {0: "id"}
+        mm = rnd.choice([child, parent])["name"]
+        agg = rnd.choice(["sum", "count", "max", "min"])
+        q = dict(dims=dims, dim_names=names, mets=[(mm, agg, None if agg == "count" else jg.jcol("c0"), [])], filters=[])
+        return f, q
+    f = jg.gen_forest(rnd)
+    return f, gen_query(rnd, f)
+
+
 def gen_mixed_query(rnd, f):
     """a base-model metric with the other models referenced in the order [fan-out child, non-fan-out parent] (or the reverse): the
     fan-out verdict must be accumulated over ALL joined models, whichever comes last.  None when the forest has no such triple."""
@@ -162,9 +189,12 @@ def gen_mixed_query(rnd, f):
 def field_names(q):
     """unique dimension / metric names per model; returns (dims_by_model, metrics_by_model, dim refs, metric refs)"""
     dbm, mbm, drefs, mrefs = {}, {}, [], []
+    named = q.get("dim_names") or {}
     for i, (m, e) in enumerate(q["dims"]):
-        dbm.setdefault(m, []).append((jg.dim_name(i, e), e))
-        drefs.append("%s.%s" % (m, jg.dim_col(i, e)))
+        # q["dim_names"] = {position: name}: the Dimension is declared under that name (e.g. the name of a key column) instead of d<i>
+        dn = named.get(i) or named.get(str(i))
+        dbm.setdefault(m, []).append((dn or jg.dim_name(i, e), e))
+        drefs.append("%s.%s" % (m, dn or jg.dim_col(i, e)))
     for j, (m, a, e, fl) in enumerate(q["mets"]):
         mbm.setdefault(m, []).append(("m%d" % j, a, e, fl))
         mrefs.append("%s.m%d" % (m, j))
@@ -275,13 +305,22 @@ def run(c):
         f = jg.gen_forest(c.rng)
         q = gen_mixed_query(c.rng, f) if c.rng.random() < 0.25 else None
         cases.append((f, q or gen_query(c.rng, f, single_metric_model=c.rng.random() < 0.7)))
-    cases += [gen_m2m_case(c.rng) for _ in range(max(10, n // 10))] + [gen_composite_case(c.rng) for _ in range(max(10, n // 10))] + [gen_detail_case(c.rng) for _ in range(max(10, n // 10))]
+    cases += [gen_m2m_case(c.rng) for _ in range(max(10, n // 10))] + [gen_composite_case(c.rng) for _ in range(max(10, n // 10))] + [gen_detail_case(c.rng) for _ in range(max(10, n // 10))] + [gen_keydim_case(c.rng) for _ in range(max(10, n // 10))]
     cf = jg.corpus_forest()
     cases[:0] = [
         (cf, dict(dims=[("mb", jg.jcol("s0"))], mets=[("ma", "sum", jg.jcol("c0"), [])], filters=[])),                       # K1: non-base metric through many_to_one
         (cf, dict(dims=[], mets=[("ma", "sum", jg.jcol("c0"), [])], filters=[("mb", ("not", ("isnull", jg.jcol("id"))))])),  # K2: NULL measure under the symmetric SUM
         (cf, dict(dims=[("ma", jg.jcol("s0"))], mets=[("ma", "sum", jg.jcol("c1"), []), ("ma", "count", None, [])], filters=[("mb", ("cmp", "=", jg.jcol("s0"), sg.lit("a")))])),
     ]
+    # a dimension NAMED like a key column: the code projects the key column under that name and never evaluates the dimension's own SQL (listed class C02-K4).
+    # Its model is therefore the SHADOW query (the dimension's expression replaced by the key column); the reference semantics is that of the query as written.
+    shadow = {}
+    for i, (f, q) in enumerate(list(cases)):
+        if q.get("dim_names"):
+            q2 = dict(q, dims=[(m, jg.jcol(q["dim_names"][k]) if k in q["dim_names"] else e) for k, (m, e) in enumerate(q["dims"])])
+            q2.pop("dim_names")
+            shadow[i] = len(cases)
+            cases.append((f, q2))
     outs = None
     if lib.coq_make(["Proofs/C02_proofs.vo", "Model/Plan.vo"])[0]:
         try:
@@ -350,10 +389,18 @@ def run(c):
                 kinds.add("C02-K2")
                 if agg in ("sum", "avg"):
                     exempt_model.add(j)           # the value depends on the real hash
+        shadow_srows = None
+        if i in shadow and outs is not None and sg.unquote(outs[shadow[i]]).startswith("OK#"):
+            _, sh_m, sh_s, _, _ = sg.unquote(outs[shadow[i]]).split("#")
+            if sh_m != "REJECTED":
+                mrows, shadow_srows = sg.parse_show(sh_m), sg.parse_show(sh_s)
         if not compare(q, rows, mrows, exempt_model):
             fid_bad.append({"forest": f, "query": q, "model": m_line[:400], "impl": [list(map(str, r)) for r in rows[:8]], "sql": sql[-700:]})
         if compare(q, rows, srows, set()):
             pass
+        elif shadow_srows is not None and c.is_open("C02-K4") and (compare(q, rows, shadow_srows, set()) or (compare(q, rows, shadow_srows, exempt_spec) and all(c.is_open(k) for k in kinds))):
+            c.known("C02-K4")             # exactly the rows of the query whose dimension is the raw key column: nothing else is excused
+            stats["k4"] = stats.get("k4", 0) + 1
         elif compare(q, rows, srows, exempt_spec) and all(c.is_open(k) for k in kinds):
             for k in kinds:
                 c.known(k)
